@@ -7,7 +7,7 @@ import CopVerif.Gen.Effects
 
     * `effects count`                → `ok <number of entry points>`
     * `effects entry <i>`            → `ok <name> <fn> <accept|reject> <#stmts> <#params> {<pname> <var> <0|1>}`
-                                        (1 = the checker cannot exclude a write to that parameter's object)
+                                        (1 = the checker cannot exclude a write to that parameter's object or to an object held inside it)
     * `effects flat <i>`             → `ok {p:<x> | a:<x>:<y> | f:<x> | w:<x>}` the flat statement set
     * `effects session <i> <j> …`    → `ok <accept|reject> {<var>}` may-written parameters of the union
     * `effects var <v>` / `effects fn <k>` → `ok <name>`
@@ -21,9 +21,9 @@ def showStmt : Stmt → String
   | .alias x y => s!"a:{x}:{y}"
   | .fresh x => s!"f:{x}"
   | .write x => s!"w:{x}"
-  | .call f _ r => s!"c:{f}:{r}"
+  | .call f _ _ => s!"c:{f}"
 
-def entryAt (i : Nat) : Option (String × Nat × List (String × Var)) := Gen.Effects.entries[i]?
+def entryAt (i : Nat) : Option (String × Nat × List (String × Var × Var)) := Gen.Effects.entries[i]?
 
 def effects (ws : List String) : String :=
   match ws with
@@ -33,7 +33,7 @@ def effects (ws : List String) : String :=
     | some (name, f, ps) =>
       let prog := flatten Gen.Effects.module f
       let verdict := if noParamWrite prog then "accept" else "reject"
-      let per := ps.map fun (pn, v) => s!"{pn} {v} {if safeFrom prog [v] then 0 else 1}"
+      let per := ps.map fun (pn, v, c) => s!"{pn} {v} {if safeFrom prog [v, c] then 0 else 1}"
       s!"ok {name} {f} {verdict} {prog.length} {ps.length} " ++ " ".intercalate per
     | none => "bad-op"
   | ["flat", i] =>
